@@ -197,4 +197,95 @@ theorem not_permitted (path : String) (data b : List UInt8) (pos : Nat) (sp : Sp
     fileOp (mkWorld path data 3 pos true) 0 (.fread sp 0 1) = .error .value := by
   refine ⟨?_, ?_, ?_⟩ <;> simp [fileOp, mkWorld, getFile, canWrite, canRead]
 
+/-! ### every history of permitted operations: the handle *is* a byte array with a position -/
+
+/-- the plain byte-file of the statement -/
+structure BF where
+  data : List UInt8
+  pos : Nat
+
+inductive BOp where
+  | read (n : Nat) | readAll | write (b : List UInt8) | tell
+  | seek (off : Nat) | seekCur (off : Int) | trunc (sz : Nat)
+
+/-- what the mode permits, plus the host's 63-bit offset range -/
+def BOp.ok (mode : Nat) (s : BF) : BOp → Prop
+  | .read n => canRead mode = true ∧ (n : Int) < 2 ^ 63
+  | .readAll => canRead mode = true
+  | .write b => canWrite mode = true ∧ b ≠ []
+  | .tell => True
+  | .seek off => (off : Int) < 2 ^ 63
+  | .seekCur off => 0 ≤ (s.pos : Int) + off ∧ off < 2 ^ 63 ∧ -(2 ^ 63) ≤ off
+  | .trunc sz => canWrite mode = true ∧ (sz : Int) < 2 ^ 63
+
+/-- the specification: one step of a byte array with a cursor -/
+def BF.step (mode : Nat) (s : BF) : BOp → Val × BF
+  | .read n => (.bytes ((s.data.drop s.pos).take n), ⟨s.data, s.pos + ((s.data.drop s.pos).take n).length⟩)
+  | .readAll => (.bytes (s.data.drop s.pos), ⟨s.data, s.pos + (s.data.drop s.pos).length⟩)
+  | .write b =>
+    let at_ := if isAppend mode then s.data.length else s.pos
+    (.int b.length, ⟨writeAt s.data at_ b, at_ + b.length⟩)
+  | .tell => (.int s.pos, s)
+  | .seek off => (.int off, ⟨s.data, off⟩)
+  | .seekCur off => (.int (s.pos + off), ⟨s.data, ((s.pos : Int) + off).toNat⟩)
+  | .trunc sz => (.int sz, ⟨truncTo s.data sz, s.pos⟩)
+
+def BOp.toW (sp : Span) : BOp → WOp
+  | .read n => .fread sp 0 n
+  | .readAll => .fread sp 0 (-1)
+  | .write b => .fwrite sp 0 b
+  | .tell => .ftell sp 0
+  | .seek off => .fseek sp 0 off 0
+  | .seekCur off => .fseek sp 0 off 1
+  | .trunc sz => .ftrunc sp 0 (some sz)
+
+/-- one permitted operation on the model's world = one step of the byte-file specification -/
+theorem step_refines (path : String) (mode : Nat) (s : BF) (op : BOp) (h : op.ok mode s) (sp : Span) :
+    fileOp (mkWorld path s.data mode s.pos) 0 (op.toW sp) =
+      .ok ((s.step mode op).1, mkWorld path (s.step mode op).2.data mode (s.step mode op).2.pos) := by
+  cases op with
+  | read n => exact read_spec path s.data mode s.pos n h.1 h.2 sp
+  | readAll => exact read_all path s.data mode s.pos h sp
+  | write b => exact write_spec path s.data b mode s.pos h.1 h.2 sp
+  | tell => exact tell_spec path s.data mode s.pos sp
+  | seek off => exact seek_set_spec path s.data mode s.pos off h sp
+  | seekCur off => exact seek_cur_spec path s.data mode s.pos off h.1 ⟨h.2.1, h.2.2⟩ sp
+  | trunc sz => exact truncate_spec path s.data mode s.pos sz h.1 h.2 sp
+
+/-- run a list of operations on the world, collecting the returned values -/
+def runOps (w : World) : List WOp → Except WErr (List Val × World)
+  | [] => .ok ([], w)
+  | op :: ops =>
+    match fileOp w 0 op with
+    | .error e => .error e
+    | .ok (v, w') => (runOps w' ops).map (fun (vs, w'') => (v :: vs, w''))
+
+def BF.run (mode : Nat) (s : BF) : List BOp → List Val × BF
+  | [] => ([], s)
+  | op :: ops => let (v, s') := s.step mode op; let (vs, s'') := BF.run mode s' ops; (v :: vs, s'')
+
+/-- each operation of the history is permitted in the state the specification reaches before it -/
+def AllOk (mode : Nat) : BF → List BOp → Prop
+  | _, [] => True
+  | s, op :: ops => op.ok mode s ∧ AllOk mode (s.step mode op).2 ops
+
+/-- **refinement for every history**: whatever sequence of permitted reads, writes, seeks, tells and truncates is
+applied to a handle, the values returned and the resulting contents / position are those of the plain byte
+array with a cursor -/
+theorem history_refines (path : String) (mode : Nat) (sp : Span) : ∀ (ops : List BOp) (s : BF), AllOk mode s ops →
+    runOps (mkWorld path s.data mode s.pos) (ops.map (BOp.toW sp)) =
+      .ok ((s.run mode ops).1, mkWorld path (s.run mode ops).2.data mode (s.run mode ops).2.pos) := by
+  intro ops
+  induction ops with
+  | nil => intro s _; rfl
+  | cons op ops ih =>
+    intro s h
+    simp only [List.map_cons, runOps, step_refines path mode s op h.1 sp]
+    rw [ih _ h.2]
+    rfl
+
+/-- non-vacuity: an append-mode history (write, seek 0, write, read all) satisfies the hypothesis -/
+example : AllOk 5 ⟨[1, 2], 2⟩ [.write [9], .seek 0, .write [8], .seek 1, .readAll] := by
+  simp [AllOk, BOp.ok, canWrite, canRead]
+
 end UH.C14
